@@ -293,7 +293,20 @@ def report_violation(ctx, path, no_input=False):
     ctx.violations.append((path, no_input))
     print("VIOLATION property=%s replay=%s%s" % (ctx.pid, path, " no-failing-input-found" if no_input else ""), flush=True)
 
+def claimed_category(pid):
+    try:
+        m = json.load(open(os.path.join(V, "MANIFEST.json")))
+        for c in m.get("checks", []):
+            if c.get("property_id") == pid: return c["level_claimed"]["category"]
+    except Exception:
+        pass
+    return None
+
 def write_evidence(ctx, level, coverage, assumptions):
+    # the evidence level is the level claimed in MANIFEST.json; a property whose theorems cover only part of its
+    # statement stays at the claimed (lower) level even when every listed theorem is discharged
+    claimed = claimed_category(ctx.pid)
+    if claimed and claimed != "proof": level = claimed
     d = os.path.join(V, "evidence"); os.makedirs(d, exist_ok=True)
     ev = dict(property_id=ctx.pid, tier=ctx.tier, seed=ctx.seed, level=level, coverage=coverage,
               assumptions=assumptions, wall_s=round(time.time() - ctx.t0, 2), violations=len(ctx.violations),
